@@ -136,7 +136,11 @@ Fixpoint tasks_to_messages_in (lines : list (list N)) (ts : list task) : bres (l
       let head :=
         match tk_payload t with
         | Some p => BOk [{| ms_id := tk_id t; ms_file := tk_file t; ms_payload := p; ms_baked := false |}]
-        | None => baked_range_in lines (Z.to_nat (tk_end t - tk_start t)) (tk_start t) (tk_end t)
+        | None =>
+            (* the loop stops at the first position outside the list, so |list| + 1 steps are always
+               enough: the fuel never depends on how wide a (board-supplied) range claims to be *)
+            baked_range_in lines (Z.to_nat (Z.min (tk_end t - tk_start t) (Z.of_nat (length lines) + 1)))
+                           (tk_start t) (tk_end t)
         end in
       match head with
       | BOk h => match tasks_to_messages_in lines r with
